@@ -274,6 +274,7 @@ func (m *Machine) callSSA(caller *frame, pos token.Pos, fn *ssa.Function, args [
 	if fr.depth > maxDepth {
 		m.recursionLimit(fr)
 	}
+
 	if m.trackFuncs {
 		m.funcsSeen[fn] = struct{}{}
 	}
@@ -313,8 +314,19 @@ func (m *Machine) runFrame(fr *frame) {
 		r := recover()
 		switch r.(type) {
 		case goPanic:
-		case pathAbort, engineError:
+		case pathAbort:
 			panic(r)
+		case engineError:
+			// say where (once, at the innermost frame)
+			e := r.(engineError)
+			if !strings.Contains(e.msg, " [in ") {
+				st := strings.Split(strings.TrimSpace(fr.stack()), "\n")
+				if len(st) > 5 {
+					st = st[:5]
+				}
+				e.msg += " [in " + strings.Join(st, " <- ") + "]"
+			}
+			panic(e)
 		default:
 			// host panic: engine bug. Annotate once and propagate.
 			if _, ok := r.(hostCrash); ok {
